@@ -354,6 +354,16 @@ def index_kind_problems(prog, fi):
             if e.value.id in pos_lookup:
                 inner = kinds(e.slice, depth + 1)
                 return {K("POS", k.end) if k.fam == "LABEL" else K("BAD", k.end, "a position used as a label in the label->position lookup") for k in inner}
+        if isinstance(e, ast.Subscript) and isinstance(e.value, ast.Attribute) and e.value.attr == "index" and norm(e.slice) in ("0", "-1"):
+            return {K("LABEL", "FIRST" if norm(e.slice) == "0" else "LAST")}           # <table>.index[0]: the label of the first row
+        if isinstance(e, ast.BinOp) and isinstance(e.op, (ast.Add, ast.Sub)) and not (isinstance(e.right, ast.Constant) and e.right.value == 1):
+            lk, rk = kinds(e.left, depth + 1), kinds(e.right, depth + 1)
+            if any(k.fam == "LABEL" for k in lk | rk):
+                return {K("ARITH", "ANY", f"arithmetic on index labels (`{norm(e)}`): a label difference is a row position only while the labels are consecutive "
+                                            "integers, which no longer holds after any row filtering")}
+            if lk and rk and all(k.fam == "POS" for k in lk | rk):
+                return {K("POS", "ANY")}
+            return set()
         if isinstance(e, ast.Call) and isinstance(e.func, ast.Name) and e.func.id == "len":
             return {K("POS", "ONE_PAST")}
         if isinstance(e, ast.Call) and isinstance(e.func, ast.Name) and e.func.id == "int" and e.args:
